@@ -17,10 +17,10 @@ def build_and_demo(tag):
     rc, out = sh("make -j8", wt)
     res[tag + "_build"] = rc
     demo_c = os.path.join(sd, "demo.c")
-    if os.path.exists(demo_c):
-        rc, out = sh("cc -Wall -Iinclude -I. -D_DEFAULT_SOURCE -o /tmp/_seed_demo %s libeav.a -lidn2 && /tmp/_seed_demo" % demo_c, wt)
-    elif os.path.exists(os.path.join(sd, "demo.sh")):
+    if os.path.exists(os.path.join(sd, "demo.sh")):
         rc, out = sh("sh %s" % os.path.join(sd, "demo.sh"), wt)
+    elif os.path.exists(demo_c):
+        rc, out = sh("cc -Wall -Iinclude -I. -D_DEFAULT_SOURCE -o %s/_demo_bin %s libeav.a -lidn2 && %s/_demo_bin" % (sd, demo_c, sd), wt)
     else:
         rc, out = -1, "no demo"
     res[tag + "_demo_rc"] = rc
